@@ -39,7 +39,7 @@ def gen_random(rng):
 
 
 def exhaustive_cases(tier):
-    depth = 2 if tier == "quick" else 4
+    depth = 2 if tier == "quick" else 3
     w_ev = ["try", ["do", ["log", 1], ["do", ["eventwait", 0], ["do", ["log", 2], ["end"]]]], "base",
             ["logexc", ["do", ["sleep0"], ["end"]]], ["end"], ["end"]]
     w_fut = ["do", ["awaitfut", 0], ["do", ["query"], ["end"]]]
@@ -61,7 +61,7 @@ def exhaustive_cases(tier):
 
 def gen(rng, tier):
     yield from exhaustive_cases(tier)
-    for _ in range(450 if tier == "quick" else 8000):
+    for _ in range(450 if tier == "quick" else 2500):
         yield gen_random(rng)
 
 
